@@ -3,7 +3,7 @@
 // Reply:    (res (v R) (sp-in R) (sp-sorted R) (msg "…"))   — the model produces the same line
 // Oracle:   property relations evaluated directly on the JS results (no model involved)
 import { A, Atom, show, head, isAtom, quote } from "./sx.mjs";
-import { encVal, decVal, makeBuilder, TYPED, canonNum } from "./values.mjs";
+import { encVal, encOut, decVal, makeBuilder, TYPED, canonNum } from "./values.mjs";
 
 // ---------------- generator ----------------
 const KEYS = ["a", "b", "c", "t", "kind", "x"];
@@ -192,7 +192,7 @@ export function randomValue(rng, d) {
     case 9: return function f() {};
     case 10: return new (globalThis[rng.pick(TYPED.slice(0, 9))])(rng.below(3));
     case 11: return rng.pick(STRS);
-    case 12: case 13: return Array.from({ length: rng.below(4) }, () => randomValue(rng, d - 1));
+    case 12: case 13: { const a = Array.from({ length: rng.below(4) }, () => randomValue(rng, d - 1)); if (a.length && rng.chance(1, 6)) delete a[rng.below(a.length)]; return a; } // sometimes sparse
     case 14: case 15: { const o = {}; const n = rng.below(4); for (let i = 0; i < n; i++) Object.defineProperty(o, pickKey(rng), { value: randomValue(rng, d - 1), enumerable: true, configurable: true, writable: true }); return o; }
     case 16: return new Map(Array.from({ length: rng.below(3) }, (_, i) => [rng.chance(1, 2) ? "k" + i : i, randomValue(rng, d - 1)]));
     default: return new Set(Array.from({ length: rng.below(3) }, (_, i) => (rng.chance(1, 2) ? "s" + i : randomValue(rng, 0))));
@@ -259,7 +259,7 @@ export function mutate(rng, v, d) {
     const c = v.slice();
     switch (rng.below(3)) {
       case 0: c.push(randomValue(rng, 1)); return c;
-      case 1: c.pop(); return c;
+      case 1: if (c.length && rng.chance(1, 3)) { delete c[rng.below(c.length)]; return c; } c.pop(); return c; // a hole: read as undefined
       default: if (c.length) { const i = rng.below(c.length); c[i] = mutate(rng, c[i], d - 1); } return c;
     }
   }
@@ -278,6 +278,18 @@ export function mutate(rng, v, d) {
 export function gen(rng, params, mode) {
   const { names, env } = genEnv(rng);
   const rt = genRT(rng, 1 + rng.below(3), names);
+  if (rng.chance(1, 30)) {
+    // an intersection that survives to run time (one member has an index signature), and a value with an own `__proto__`
+    // key that the signature admits: the parsed members are put together key by key
+    const inner = [A("object"), [["a", [A("typeof"), "string"]]], []];
+    const rt2 = [A("allof"), [A("object"), [["a", [A("opt"), [A("typeof"), "number"]]]], []], [A("object"), [], [[[A("typeof"), "string"], [A("anyof"), [A("typeof"), "number"], inner]]]]];
+    const o = {};
+    const put = (k, x) => Object.defineProperty(o, k, { value: x, enumerable: true, configurable: true, writable: true });
+    if (rng.chance(1, 2)) put("x", 2);
+    put("__proto__", rng.pick([7, { a: "s" }, { a: 1 }, "no"]));
+    if (rng.chance(1, 2)) put("a", rng.pick([1, "x"]));
+    return [A("rt"), env, rt2, encVal(o), A(rng.chance(1, 2) ? "true" : "false")];
+  }
   const r = rng.below(10);
   let v = r < 6 ? member(rng, rt, env, 2) : r < 9 ? mutate(rng, member(rng, rt, env, 2), 3) : randomValue(rng, 2);
   return [A("rt"), env, rt, encVal(v), A(rng.chance(1, 2) ? "true" : "false")];
@@ -289,8 +301,8 @@ export function registerFormats(cg) {
   for (const k of [2, 3]) cg.registerNumberFormatter("n" + k, (n) => Number.isInteger(n) && Math.abs(n) < 1e15 && n % k === 0);
 }
 function encErr(e) {
-  if ("isUnionError" in e) return [A("uerr"), e.path.slice(), encVal(e.received), e.errors.map(encErr)];
-  return [A("err"), e.message, e.path.slice(), encVal(e.received)];
+  if ("isUnionError" in e) return [A("uerr"), e.path.slice(), encOut(e.received), e.errors.map(encErr)];
+  return [A("err"), e.message, e.path.slice(), encOut(e.received)];
 }
 function errClass(e) { return e && e.constructor ? e.constructor.name : "unknown"; }
 
@@ -433,7 +445,7 @@ export function makeRunner(rt_, mode) {
     const sp = (order) => {
       try {
         const r = parser.safeParse(x, opt(order));
-        return { r, out: r.success ? [A("ok"), encVal(r.data)] : [A("errors"), ...r.errors.map(encErr)] };
+        return { r, out: r.success ? [A("ok"), encOut(r.data)] : [A("errors"), ...r.errors.map(encErr)] };
       } catch (e) { bad.add("c03.throw"); return { r: null, out: [A("throw"), errClass(e)] }; }
     };
     const si = sp("input"), ss = sp("sorted");
